@@ -32,6 +32,10 @@ func init() {
 				}
 				p.Tasks = append(p.Tasks, Task{Ops: ops})
 			}
+			// slow dials: many first users arrive while the one dial is in progress
+			if g.R.Chance(0.4) {
+				p.Faults = append(p.Faults, &Fault{On: "step", N: 1, Act: "dialdelay", Dur: []int{1, 5, 50, 400, 3000}[g.R.Intn(5)]})
+			}
 			// with faults in a third of the runs
 			if g.R.Chance(0.35) {
 				nf := g.R.Range(1, 3)
@@ -61,7 +65,13 @@ func init() {
 			if err := w.CacheInvariant(); err != nil {
 				vs = append(vs, w.viol("C20", "snapshot", "%v", err))
 			}
-			if len(w.Plan.Faults)+len(w.Plan.ConnFaults) == 0 {
+			nf := len(w.Plan.ConnFaults)
+			for _, f := range w.Plan.Faults {
+				if f.Act != "dialdelay" { // a slow dial is not a failure
+					nf++
+				}
+			}
+			if nf == 0 {
 				seen := map[string]int{}
 				for _, d := range w.Env.Dials {
 					seen[d.Addr]++
